@@ -79,6 +79,12 @@ var tamperTargets = map[string][]string{
 	"back":   {"c2s-rtp"},
 }
 
+// further write entry points, tampered with in the thorough tier
+var moreTargets = map[string][]string{
+	"play": {"s2c-session-rtp", "s2c-session-rtcp"},
+	"back": {"c2s-back-rtcp"},
+}
+
 func wireJobs(thorough bool) []Job {
 	var out []Job
 	for _, fl := range []string{"play", "record", "back"} {
@@ -91,19 +97,28 @@ func wireJobs(thorough bool) []Job {
 			out = append(out, Job{Wire: &WireJob{Flow: fl, Transport: tr, Thorough: thorough}})
 		}
 	}
-	chunks := 4
-	if thorough {
-		chunks = 6
-	}
-	for _, fl := range []string{"play", "record", "back"} {
-		for _, tg := range tamperTargets[fl] {
-			shapes := []string{"small"}
-			if thorough && strings.HasSuffix(tg, "-rtp") {
-				shapes = append(shapes, "big")
+	for _, tr := range []string{"udp", "tcp-frames"} {
+		chunks := 4
+		if tr != "udp" {
+			chunks = 2
+		}
+		if thorough {
+			chunks *= 2
+		}
+		for _, fl := range []string{"play", "record", "back"} {
+			targets := tamperTargets[fl]
+			if thorough {
+				targets = append(append([]string{}, targets...), moreTargets[fl]...)
 			}
-			for _, sh := range shapes {
-				for c := 0; c < chunks; c++ {
-					out = append(out, Job{Wire: &WireJob{Flow: fl, Transport: "udp", Target: tg, Shape: sh, Chunk: c, Chunks: chunks, Thorough: thorough}})
+			for _, tg := range targets {
+				shapes := []string{"small"}
+				if thorough && strings.HasSuffix(tg, "-rtp") {
+					shapes = append(shapes, "big")
+				}
+				for _, sh := range shapes {
+					for c := 0; c < chunks; c++ {
+						out = append(out, Job{Wire: &WireJob{Flow: fl, Transport: tr, Target: tg, Shape: sh, Chunk: c, Chunks: chunks, Thorough: thorough}})
+					}
 				}
 			}
 		}
@@ -293,38 +308,51 @@ func frames(b []byte) (out [][]byte, msgs int, ok bool) {
 
 // ---------------------------------------------------------------- tamper
 
+// held is a unit (datagram, or one interleaved frame written in one piece) caught by the tamper hook.
 type held struct {
 	from *net.UDPAddr
 	to   *net.UDPAddr
-	data []byte
+	data []byte // UDP: the datagram; TCP: the protected packet inside the frame
 }
 
+// tamperT is the memnet tamper hook. When armed, the next unit recognised by match is reported on got and
+// replaced: UDP - dropped (the harness injects the altered copy and then the original from one goroutine, so
+// that their order is fixed); TCP - replaced in the same write by [frame with the altered packet][original frame]
+// (alter == nil: passed through unchanged).
 type tamperT struct {
 	mu    sync.Mutex
-	armed func(src, dst *net.UDPAddr, data []byte) bool
+	match func(kind string, src, dst net.Addr, data []byte) bool
+	alter *Alter
 	got   chan held
 }
 
 func (t *tamperT) hook(kind string, src, dst net.Addr, data []byte) []byte {
-	if kind != "udp" {
+	t.mu.Lock()
+	m, a := t.match, t.alter
+	if m == nil || !m(kind, src, dst, data) {
+		t.mu.Unlock()
 		return data
 	}
-	t.mu.Lock()
-	m := t.armed
-	s, d := src.(*net.UDPAddr), dst.(*net.UDPAddr)
-	if m != nil && m(s, d, data) {
-		t.armed = nil
-		t.mu.Unlock()
-		t.got <- held{s, d, data}
-		return nil // held back: the harness injects the altered copy and then the original
-	}
+	t.match = nil
 	t.mu.Unlock()
-	return data
+	if kind == "udp" {
+		t.got <- held{src.(*net.UDPAddr), dst.(*net.UDPAddr), data}
+		return nil
+	}
+	pkt := append([]byte{}, data[4:]...)
+	t.got <- held{data: pkt}
+	if a == nil {
+		return data
+	}
+	alt := a.apply(pkt)
+	out := append([]byte{}, data[:4]...)
+	out = append(out, alt...)
+	return append(out, data...)
 }
 
-func (t *tamperT) arm(m func(src, dst *net.UDPAddr, data []byte) bool) {
+func (t *tamperT) arm(m func(kind string, src, dst net.Addr, data []byte) bool, a *Alter) {
 	t.mu.Lock()
-	t.armed = m
+	t.match, t.alter = m, a
 	t.mu.Unlock()
 }
 
@@ -871,19 +899,23 @@ func region(kind string, at, n, hdr int) string {
 	return "payload"
 }
 
-// tamperPass: for every alteration of the job's slice: hold back a fresh protected datagram, inject the altered
-// copy, inject the original, write a fresh fence packet, wait for the fence, then judge the window.
+// tamperPass: for every alteration of the job's slice, the receiver is given [altered copy of a fresh protected
+// packet][that packet unaltered][a fresh fence packet]; when the fence has reached the callback the window is judged.
 func tamperPass(wp **world, out *JobOut, outcomes map[string]bool, addVio func(string, map[string]any)) {
 	w := *wp
 	job := w.job
+	udp := job.Transport == "udp"
 	var wr writerT
-	found := false
-	for _, x := range w.writers() {
-		if x.Name == job.Target {
-			wr, found = x, true
+	pick := func(w *world) bool {
+		for _, x := range w.writers() {
+			if x.Name == job.Target {
+				wr = x
+				return true
+			}
 		}
+		return false
 	}
-	if !found {
+	if !pick(w) {
 		out.SetupErr = "unknown target " + job.Target
 		return
 	}
@@ -892,24 +924,27 @@ func tamperPass(wp **world, out *JobOut, outcomes map[string]bool, addVio func(s
 		pt = wr.PTs[0]
 	}
 	setup := func(w *world) error {
-		// path live, first packets of the stream unaltered; the automatic sender report that follows the first
-		// RTP packet of a sender is awaited so that it cannot fall into a tamper window
+		// path live and the first packets of every stream unaltered; each RTP sender produces one sender report on
+		// its own after its first packet: all of them are awaited so that none can fall into a tamper window
+		want := 0
 		for _, x := range w.writers() {
-			if x.Dir == wr.Dir && x.Kind == "rtp" && x.Media == wr.Media && !strings.Contains(x.Name, "session") {
-				if err := w.warm(x, x.PTs[0], 3); err != nil {
+			if x.Dir == wr.Dir && x.Kind == "rtp" && x.Media == wr.Media {
+				if err := w.warm(x, pt0(x), 3); err != nil {
 					return err
 				}
-				if !x.rx.wait(sysx.HangLimit, func() bool {
-					for _, r := range x.rx.rtcp {
-						if r.Type == "sr" {
-							return true
-						}
-					}
-					return false
-				}) {
-					return fmt.Errorf("%s: the sender report after the first RTP packet never arrived", x.Name)
+				want++
+			}
+		}
+		if want > 0 && !wr.rx.wait(sysx.HangLimit, func() bool {
+			n := 0
+			for _, r := range wr.rx.rtcp {
+				if r.Type == "sr" && r.Media == wr.Media {
+					n++
 				}
 			}
+			return n >= want
+		}) {
+			return fmt.Errorf("%s: the sender reports that follow the first RTP packets never arrived", wr.Name)
 		}
 		if wr.Kind == "rtcp" {
 			return w.warm(wr, pt, 3)
@@ -920,9 +955,9 @@ func tamperPass(wp **world, out *JobOut, outcomes map[string]bool, addVio func(s
 		out.SetupErr = err.Error()
 		return
 	}
-	// size of the protected form: hold one packet back, look at it, let it through
-	probe := func(w *world) (held, sentT, error) {
-		w.tam.arm(matcher(wr))
+	// catch writes one fresh packet with the hook armed and returns its protected form
+	catch := func(w *world, a *Alter) (held, sentT, error) {
+		w.tam.arm(w.matcher(wr), a)
 		s, err := w.send(wr, pt, job.Shape)
 		if err != nil {
 			return held{}, s, fmt.Errorf("%s: write refused: %v", wr.Name, err)
@@ -934,15 +969,18 @@ func tamperPass(wp **world, out *JobOut, outcomes map[string]bool, addVio func(s
 			return held{}, s, fmt.Errorf("%s: the written packet never appeared on the wire", wr.Name)
 		}
 	}
-	h0, s0, err := probe(w)
+	// size of the protected form
+	from0 := wr.rx.mark()
+	h0, s0, err := catch(w, nil)
 	if err != nil {
 		out.SetupErr = err.Error()
 		return
 	}
-	from0 := wr.rx.mark()
-	w.env.Net.Inject(h0.from, h0.to.Port, h0.data)
+	if udp {
+		w.env.Net.Inject(h0.from, h0.to.Port, h0.data)
+	}
 	if !wr.rx.wait(sysx.HangLimit, func() bool { return w.delivered(wr, s0, from0) }) {
-		out.SetupErr = wr.Name + ": a held-back and re-injected unaltered packet was not delivered"
+		out.SetupErr = wr.Name + ": an unaltered packet that passed the tamper hook was not delivered"
 		return
 	}
 	size := len(h0.data)
@@ -960,12 +998,14 @@ func tamperPass(wp **world, out *JobOut, outcomes map[string]bool, addVio func(s
 	if job.Only != nil {
 		mine = []Alter{*job.Only}
 	}
-	out.Counts["size/tamper/"+wr.Name+"/"+job.Shape+"/protected_bytes"] = size
-	for _, a := range mine {
+	out.Counts["size/tamper/"+job.Transport+"/"+wr.Name+"/"+job.Shape+"/protected_bytes"] = size
+	for i := range mine {
+		a := mine[i]
 		if a.Byte >= size {
 			continue
 		}
-		h, s, err := probe(w)
+		from := wr.rx.mark()
+		h, s, err := catch(w, &a)
 		if err != nil {
 			out.SetupErr = err.Error()
 			return
@@ -975,32 +1015,35 @@ func tamperPass(wp **world, out *JobOut, outcomes map[string]bool, addVio func(s
 			return
 		}
 		altered := a.apply(h.data)
+		identity := bytes.Equal(altered, h.data)
+		if udp {
+			if !identity {
+				w.env.Net.Inject(h.from, h.to.Port, altered)
+			}
+			w.env.Net.Inject(h.from, h.to.Port, h.data)
+		}
 		reg := region(wr.Kind, a.Byte, size, hdr)
 		tag := a.kind() + "-in-" + reg
 		detail := map[string]any{"target": wr.Name, "alteration": a, "original": fmt.Sprintf("%x", h.data), "altered": fmt.Sprintf("%x", altered)}
-		if bytes.Equal(altered, h.data) {
-			out.Counts["tamper/identity_alterations_skipped"]++
-			// nothing altered: let the original through and go on
-			fromI := wr.rx.mark()
-			w.env.Net.Inject(h.from, h.to.Port, h.data)
-			if !wr.rx.wait(sysx.HangLimit, func() bool { return w.delivered(wr, s, fromI) }) {
-				out.SetupErr = wr.Name + ": unaltered packet lost"
-				return
-			}
-			continue
-		}
-		from := wr.rx.mark()
-		w.env.Net.Inject(h.from, h.to.Port, altered)
-		w.env.Net.Inject(h.from, h.to.Port, h.data)
 		fence, err := w.send(wr, pt, job.Shape)
 		if err != nil {
 			out.SetupErr = fmt.Sprintf("%s: fence write refused: %v", wr.Name, err)
 			return
 		}
 		fenceSeen := wr.rx.wait(sysx.HangLimit, func() bool { return w.delivered(wr, fence, from) })
+		if identity {
+			// the byte already had that value: nothing was altered (over TCP the receiver then sees the packet twice,
+			// which is a duplicate, not an alteration)
+			out.Counts["tamper/identity_alterations_skipped"]++
+			if !fenceSeen {
+				out.SetupErr = wr.Name + ": unaltered packets lost"
+				return
+			}
+			continue
+		}
 		out.Evals++
-		out.Nontrivial = append(out.Nontrivial, fmt.Sprintf("tamper/%s/%s/%s/%d/%d/%d", job.Flow, wr.Name, job.Shape, a.Byte, a.Bit, a.Value))
-		out.Counts["tamper/"+wr.Name+"/"+a.kind()]++
+		out.Nontrivial = append(out.Nontrivial, fmt.Sprintf("tamper/%s/%s/%s/%s/%d/%d/%d", job.Flow, job.Transport, wr.Name, job.Shape, a.Byte, a.Bit, a.Value))
+		out.Counts["tamper/"+job.Transport+"/"+wr.Name+"/"+a.kind()]++
 		// judge the window
 		wr.rx.mu.Lock()
 		var foreign []any
@@ -1033,7 +1076,7 @@ func tamperPass(wp **world, out *JobOut, outcomes map[string]bool, addVio func(s
 		detail["decode_errors"] = newErrs
 		dead := false
 		switch {
-		case len(foreign) > 0 || origSeen > 1:
+		case len(foreign) > 0 || origSeen > 1 || fenceCount > 1:
 			detail["delivered"] = foreign
 			detail["original_delivered_times"] = origSeen
 			addVio("altered-"+wr.Kind+"-delivered/"+tag, detail)
@@ -1045,9 +1088,9 @@ func tamperPass(wp **world, out *JobOut, outcomes map[string]bool, addVio func(s
 		case len(newErrs) == 0:
 			addVio("altered-"+wr.Kind+"-no-decode-error/"+tag, detail)
 		default:
-			outcomes[fmt.Sprintf("tamper/%s/%s/%s/%s", job.Flow, wr.Name, tag, errClass(newErrs[0]))] = true
+			outcomes[fmt.Sprintf("tamper/%s/%s/%s/%s", job.name(), wr.Name, tag, errClass(newErrs[0]))] = true
 			if len(out.Samples) < 1 && a.Byte == size-3 {
-				out.Samples = append(out.Samples, map[string]any{"part": "B", "target": job.Flow + "/" + wr.Name, "alteration": a, "region": reg, "decode_error": newErrs[0], "delivered": "original + fence only"})
+				out.Samples = append(out.Samples, map[string]any{"part": "B", "target": job.name() + "/" + wr.Name, "alteration": a, "region": reg, "decode_error": newErrs[0], "delivered": "original + fence only"})
 			}
 		}
 		if dead {
@@ -1060,11 +1103,7 @@ func tamperPass(wp **world, out *JobOut, outcomes map[string]bool, addVio func(s
 				return
 			}
 			*wp, w = nw, nw
-			for _, x := range w.writers() {
-				if x.Name == job.Target {
-					wr = x
-				}
-			}
+			pick(w)
 			if err := setup(w); err != nil {
 				out.SetupErr = err.Error()
 				return
@@ -1079,14 +1118,47 @@ func tamperPass(wp **world, out *JobOut, outcomes map[string]bool, addVio func(s
 	}
 }
 
-// matcher recognises the next datagram of a writer on the wire.
-func matcher(wr writerT) func(src, dst *net.UDPAddr, data []byte) bool {
+func pt0(x writerT) uint8 {
+	if len(x.PTs) > 0 {
+		return x.PTs[0]
+	}
+	return 0
+}
+
+// matcher recognises the next unit of a writer on the wire.
+func (w *world) matcher(wr writerT) func(kind string, src, dst net.Addr, data []byte) bool {
+	if w.job.Transport != "udp" {
+		ch := 0
+		if wr.Media == "back" {
+			ch = 2
+		}
+		if wr.Kind == "rtcp" {
+			ch++
+		}
+		return func(kind string, src, dst net.Addr, data []byte) bool {
+			if kind != "tcp" || len(data) < 4+8 || data[0] != '$' || int(data[1]) != ch {
+				return false
+			}
+			s, d := src.(*net.TCPAddr), dst.(*net.TCPAddr)
+			if wr.Dir == "c2s" && d.Port != 8554 || wr.Dir == "s2c" && s.Port != 8554 {
+				return false
+			}
+			if int(binary.BigEndian.Uint16(data[2:4])) != len(data)-4 {
+				return false // not exactly one frame in this write
+			}
+			return wr.Kind == "rtp" || data[5] == 204
+		}
+	}
 	port := 8000
 	if wr.Kind == "rtcp" {
 		port = 8001
 	}
-	return func(src, dst *net.UDPAddr, data []byte) bool {
-		if wr.Dir == "c2s" && dst.Port != port || wr.Dir == "s2c" && src.Port != port {
+	return func(kind string, src, dst net.Addr, data []byte) bool {
+		if kind != "udp" {
+			return false
+		}
+		s, d := src.(*net.UDPAddr), dst.(*net.UDPAddr)
+		if wr.Dir == "c2s" && d.Port != port || wr.Dir == "s2c" && s.Port != port {
 			return false
 		}
 		if wr.Kind == "rtcp" {
